@@ -59,6 +59,22 @@ func main() {
 		parserGen = "#check (vextract_translation_failed : " + leanString(perr.Error()) + ")\n"
 	}
 	outputs["ParserGen.lean"] = parserGen
+	// the translation of the object operations fails loudly in the same way
+	objectGen, oerr := genObjectOps(pkg)
+	if oerr != nil {
+		objectGen = "#check (vextract_translation_failed : " + leanString(oerr.Error()) + ")\n"
+		fmt.Fprintln(os.Stderr, "vextract: object translation failed:", oerr)
+		defer os.Exit(1)
+	}
+	outputs["ObjectGen.lean"] = objectGen
+	// the tree-form / serialisation translation (tfgen.go), in the same failing-loudly style
+	treeFormGen, tferr := genTreeForm(pkg)
+	if tferr != nil {
+		treeFormGen = "#check (vextract_translation_failed : " + leanString(tferr.Error()) + ")\n"
+		fmt.Fprintln(os.Stderr, "vextract: tree-form translation failed:", tferr)
+		defer os.Exit(1) // after the outputs have been written
+	}
+	outputs["TreeFormGen.lean"] = treeFormGen
 	for name, text := range outputs {
 		if err := os.WriteFile(filepath.Join(out, name), []byte(text), 0o644); err != nil {
 			fmt.Fprintln(os.Stderr, "vextract:", err)
